@@ -602,6 +602,8 @@ fn visit_selection<'a, V: Visitor<'a>>(
     ctx: &mut VisitorContext<'a>,
     selection: &'a Positioned<Selection>,
 ) {
+    #[cfg(async_graphql_verif)]
+    crate::verif_hooks::VISITS_VALIDATION.fetch_add(1, std::sync::atomic::Ordering::Relaxed);
     v.enter_selection(ctx, selection);
     match &selection.node {
         Selection::Field(field) => {
